@@ -233,10 +233,31 @@ func runEvmTx(r *hx.R, n int, w *hx.W, _ []string) error {
 					nm = 2 + r.Pick(2)
 					sameFrom = accs[r.Pick(3)]
 				}
+				// aimed: a current message of one sender followed by a STALE message of ANOTHER sender whose nonce continues the first
+				// sender's numbering (first sender at sequence a, second message with nonce a+1 although its own sender is further on)
+				crossStale := !drain && !sameNonce && r.Chance(1, 8)
+				var csA, csB evmtest.EthPrivKeyAcc
+				if crossStale {
+					crossStale = false
+					for x := 0; x < 3 && !crossStale; x++ {
+						for y := 0; y < 3 && !crossStale; y++ {
+							na, nb := a.EvmKeeper.GetAccNonce(ctx, accs[x].EthAddr), a.EvmKeeper.GetAccNonce(ctx, accs[y].EthAddr)
+							if x != y && nb >= na+2 {
+								csA, csB, crossStale = accs[x], accs[y], true
+							}
+						}
+					}
+					if crossStale {
+						nm = 2
+					}
+				}
 				for j := 0; j < nm; j++ {
 					from := accs[r.Pick(3)]
 					if drain {
 						from = drainFrom
+					}
+					if crossStale {
+						from = []evmtest.EthPrivKeyAcc{csA, csB}[j]
 					}
 					if sameNonce && j < 2 {
 						from = sameFrom
@@ -252,6 +273,12 @@ func runEvmTx(r *hx.R, n int, w *hx.W, _ []string) error {
 					}
 					sp := ethMsgSpec{from: from, nonce: next[key], gasLimit: 21000, price: new(big.Int).Set(e12), value: big.NewInt(0), kind: "transfer"}
 					pick := r.Pick(10)
+					if crossStale {
+						pick = 9
+						if j == 1 {
+							sp.nonce = specs[0].nonce + 1
+						}
+					}
 					if sameNonce && j < 2 {
 						pick = 9
 						if j == 1 {
